@@ -28,7 +28,7 @@ RULE = (
     "array coming back as float) is not judged here - C05 judges kinds. Persistence of a definition is judged against a pinned list of names."
 )
 TOLERANCES = {"recomputed_rel": 1e-9}
-FLOORS = {"quick": {"law.second-write-to-a-written-node": 4, "law.roundtrip-labelled-state-point": 5, "law.roundtrip-labelled-state-point/layout-differs-from-plain-node": 3, "law.roundtrip": 12, "law.load-twice": 12, "law.idempotent": 6, "law.roundtrip-later-node": 8, "nodes.compared": 3000,
+FLOORS = {"quick": {"law.second-write-to-a-written-node": 2, "law.roundtrip-labelled-state-point": 4, "law.roundtrip-labelled-state-point/layout-differs-from-plain-node": 3, "law.roundtrip": 12, "law.load-twice": 12, "law.idempotent": 6, "law.roundtrip-later-node": 8, "nodes.compared": 3000,
                     "law.roundtrip/thrz": 1, "history.third-core-with-edge-assemblies": 2, "loaded-tree.parent-links": 10000, "loaded-tree.core-lookups": 1500,
                     "persistence.definitions-pinned": 3000, "workload.nodefault-column-fully-assigned": 12,
                     "classify.recomputed-judged-against-original": 2500},
